@@ -29,10 +29,11 @@ def S(*xs):
 
 
 NONE = 100            # how a configuration file writes None for indent / width
+TAGIDS = S('1e', '1q', '2e', '2q', '2p', 'Xe', 'Xq', 'Xp', 'Ye', 'Yq', 'Yp', 'Ue', 'Uq', 'Up', '-u')
 BASE = dict(Indents=S(NONE), Widths=S(NONE), LineBreaks=S('N'), Encodings=S('N'), Streams=S('none'), ExplStart=S(False),
             ExplEnd=S(False), Versions=S('N'), TagSets=S('N'), Canon=S(False), Unicode=S(False), Apis=S('dump'),
             ScalarKinds=S('w'), CollKinds=S('BS', 'FS', 'BM', 'FM'), Anchors='FALSE', ExplicitTags='FALSE',
-            LongClasses=S(), LongLens=S(), LongStyles=S('P'), FixD12='FALSE', MaxEvents=6, MaxDepth=3, MaxDocs=1)
+            LongClasses=S(), LongLens=S(), LongStyles=S('P'), FixD12='FALSE', TagIds=S(), MaxEvents=6, MaxDepth=3, MaxDocs=1)
 ALLIND = S(NONE, 0, 1, 2, 3, 4, 5, 6, 7, 8, 9, 10)
 ALLWID = S(NONE, 0, 1, 5, 20, 80)
 CONFIGS = {
@@ -74,6 +75,13 @@ CONFIGS = {
                     ScalarKinds=S('w', 'e', 'm', 'u'), Anchors='TRUE', ExplicitTags='TRUE', MaxEvents=3, MaxDepth=2),
     'canon+':  dict(BASE, Indents=S(NONE, 4), Widths=S(NONE, 5), Canon=S(True), Unicode=S(False, True),
                     ScalarKinds=S('w', 'e', 'm', 'u', 'n'), Anchors='TRUE', ExplicitTags='TRUE', MaxEvents=4, MaxDepth=2),
+    # tags: the explicit tag of a node related to every tag prefix that can be in force (the defaults '!' and 'tag:yaml.org,2002:',
+    # and those the tags option declares) as proper extension / EQUAL / proper prefix / unrelated, on scalars and collections,
+    # x tags option x canonical: which of handle + suffix, '!', or !<verbatim> is written, and can it be read back
+    'tags':    dict(BASE, TagSets=S('N', 'T1', 'T2'), Canon=S(False, True), TagIds=TAGIDS, ScalarKinds=S('w'), CollKinds=S('BS', 'BM', 'FS'),
+                    MaxEvents=3, MaxDepth=1),
+    'tags+':   dict(BASE, Indents=S(NONE, 4), TagSets=S('N', 'T1', 'T2', 'TU'), Canon=S(False, True), TagIds=TAGIDS, ScalarKinds=S('w', 'm'),
+                    CollKinds=S('BS', 'BM', 'FS', 'FM'), MaxEvents=3, MaxDepth=1),
     # longkeys: long lexemes (macro-symbols) around the two length constants that decide whether a key may be a simple key -
     # the emitter's 128 (anchor + tag + raw scalar) and the reader's 1024 (characters as written) - x character class
     # (ASCII, BMP non-ASCII, astral, escaped control, quote) x requested style x allow_unicode, as root / item / block key / flow key
@@ -91,8 +99,8 @@ CONFIGS = {
                     MaxEvents=1, MaxDepth=0),
 }
 # 'full' is a design check only (no replay): the full option product over the smallest structure
-TIERS = {'quick': ['nest', 'scalars', 'keys', 'longkeys', 'width', 'docs', 'enc', 'canon'],
-         'thorough': ['nest+', 'scalars+', 'keys+', 'longkeys+', 'width+', 'docs+', 'enc+', 'canon+', 'full']}
+TIERS = {'quick': ['nest', 'scalars', 'keys', 'tags', 'longkeys', 'width', 'docs', 'enc', 'canon'],
+         'thorough': ['nest+', 'scalars+', 'keys+', 'tags+', 'longkeys+', 'width+', 'docs+', 'enc+', 'canon+', 'full']}
 
 # ------------------------------------------------------------------------------------------------ concretisation tables
 WORDS = 'aaaa bbbb cccc dddd eeee ffff'
@@ -122,7 +130,19 @@ TAGS = {'N': None, 'T1': {'!x!': 'tag:x.org,2002:'}, 'T2': {'!x!': 'tag:x.org,20
         'TU': {'!u!': 'tag:\u00fc.org,2002:'}}
 LB = {'N': None, 'CR': '\r', 'LF': '\n', 'CRLF': '\r\n'}
 JUNK = ['x', '\n\r', '', ' ', '\x85', 'LF']
-YSTR, YSEQ, YMAP, YEXP = 'tag:yaml.org,2002:str', 'tag:yaml.org,2002:seq', 'tag:yaml.org,2002:map', 'tag:yaml.org,2002:xyz'
+YSTR, YSEQ, YMAP = 'tag:yaml.org,2002:str', 'tag:yaml.org,2002:seq', 'tag:yaml.org,2002:map'
+PREFIX = {'1': '!', '2': 'tag:yaml.org,2002:', 'X': 'tag:x.org,2002:', 'Y': '!local-', 'U': 'tag:\u00fc.org,2002:'}
+
+
+def tag_of(e, default):
+    """the tag a model event stands for: <<p, rel>> = related to the prefix p as proper extension / equal / proper prefix"""
+    p, rel = e['g']
+    if rel == '-':
+        return default
+    if rel == 'u':
+        return 'x-private:tag'
+    return PREFIX[p] + 'foo' if rel == 'e' else PREFIX[p] if rel == 'q' else PREFIX[p][:-1]
+
 
 
 class NotExpressible(Exception):
@@ -525,12 +545,12 @@ def make_builders(yaml):
                 if s == 'z':
                     out.append(E.ScalarEvent(None, None, (True, False), ''))
                 else:
-                    out.append(E.ScalarEvent(anchor, YEXP if e['t'] else YSTR, (not e['t'] and s != 'e', not e['t']),
+                    out.append(E.ScalarEvent(anchor, tag_of(e, YSTR), (not e['t'] and s != 'e', not e['t']),
                                              pick(s, base, rnd, e), style=style_of(e)))
             elif k == 'SequenceStart':
-                out.append(E.SequenceStartEvent(anchor, YEXP if e['t'] else YSEQ, not e['t'], flow_style=e['f']))
+                out.append(E.SequenceStartEvent(anchor, tag_of(e, YSEQ), not e['t'], flow_style=e['f']))
             elif k == 'MappingStart':
-                out.append(E.MappingStartEvent(anchor, YEXP if e['t'] else YMAP, not e['t'], flow_style=e['f']))
+                out.append(E.MappingStartEvent(anchor, tag_of(e, YMAP), not e['t'], flow_style=e['f']))
             elif k == 'SequenceEnd':
                 out.append(E.SequenceEndEvent())
             elif k == 'MappingEnd':
@@ -567,16 +587,16 @@ def make_builders(yaml):
                 if k == 'Alias':
                     return root[0]
                 if k == 'Scalar':
-                    return N.ScalarNode(YEXP if e['t'] else YSTR, pick(e['s'], base, rnd, e), style=style_of(e))
+                    return N.ScalarNode(tag_of(e, YSTR), pick(e['s'], base, rnd, e), style=style_of(e))
                 if k == 'SequenceStart':
-                    n = N.SequenceNode(YEXP if e['t'] else YSEQ, [], flow_style=e['f'])
+                    n = N.SequenceNode(tag_of(e, YSEQ), [], flow_style=e['f'])
                     if root[0] is None:
                         root[0] = n
                     while doc[pos[0]]['k'] != 'SequenceEnd':
                         n.value.append(build())
                     pos[0] += 1
                     return n
-                n = N.MappingNode(YEXP if e['t'] else YMAP, [], flow_style=e['f'])
+                n = N.MappingNode(tag_of(e, YMAP), [], flow_style=e['f'])
                 if root[0] is None:
                     root[0] = n
                 while doc[pos[0]]['k'] != 'MappingEnd':
@@ -658,7 +678,7 @@ def model_prediction(st, best_break):
     entries = [[e['k'], e['line'], e['col'], e['first'], e['ind']] for e in em['entries']]
     marks = [[m['k'], m['a'], m['b']] for m in em['marks'] if m['k'] != 'X']
     return {'lines': lines, 'entries': entries, 'marks': marks, 'rtype': 'str' if em['enc'] == 'N' else 'bytes', 'bom': em['bom'],
-            'unreadable': any(k['len'] > 1024 or not k['same'] for k in em['skeys'])}
+            'unreadable': em['badtag'] or any(k['len'] > 1024 or not k['same'] for k in em['skeys'])}
 
 
 def drift(pred, obs, aux, nel):
@@ -671,7 +691,7 @@ def drift(pred, obs, aux, nel):
     if real != pred['lines']:
         return 'lines'
     if pred['unreadable'] != (obs['reread'][:1] != ['ok']):
-        return 'readability of a simple key (L says %s)' % ('too long for the reader' if pred['unreadable'] else 'readable')
+        return 'readability (L says %s)' % ('a simple key is too long for the reader / a tag has no suffix' if pred['unreadable'] else 'readable')
     if pred['unreadable']:
         return None                       # the re-scan stops at the key: no token positions to compare
     if [e[:5] for e in aux['entries']] != pred['entries']:
@@ -815,9 +835,9 @@ def compact(evs):
     for e in evs:
         k = e['k']
         if k == 'Scalar':
-            out.append('=' + e['s'] + ('*%d%s' % (e['n'], e['y']) if e['n'] else '') + ('!' if e['t'] else ''))
+            out.append('=' + e['s'] + ('*%d%s' % (e['n'], e['y']) if e['n'] else '') + ('!' + ''.join(e['g']) if e['t'] else ''))
         elif k in ('SequenceStart', 'MappingStart'):
-            out.append(('&' if e['a'] else '') + ('!' if e['t'] else '') + ('[' if k[0] == 'S' else '{') + ('f' if e['f'] else 'b'))
+            out.append(('&' if e['a'] else '') + ('!' + ''.join(e['g']) if e['t'] else '') + ('[' if k[0] == 'S' else '{') + ('f' if e['f'] else 'b'))
         elif k == 'Alias':
             out.append('*')
         else:
@@ -903,7 +923,7 @@ def random_events(yaml, rnd, budget):
     E = yaml.events
     anchors = []
     evs = []
-    tagpool = [None, None, None, YSTR, '!local', 'tag:yaml.org,2002:int', 'tag:example.com,2000:app/\u00e9', '!', 'x-private:tag', '!e!suffix']
+    tagpool = [None, None, None, None, YSTR, '!local', 'tag:yaml.org,2002:', 'tag:e.example,2002:', 'tag:e.example,2002', 'tag:yaml.org,2002:int', 'tag:example.com,2000:app/\u00e9', '!', 'x-private:tag', '!e!suffix']
 
     def node(depth, root=False):
         budget[0] -= 1
